@@ -124,6 +124,8 @@ def vacuity(ctx):
     seen = set()
     for prop, mk in sorted(plans.PLANS.items()):
         for m in mk("quick")["models"]:
+            if m.get("engine"):          # Apalache / TLAPS entries have no actions to count
+                continue
             key = (m["module"], json.dumps(m["cfg"].get("constants", {}), sort_keys=True))
             if m.get("emit") or key in seen:
                 continue
